@@ -120,7 +120,7 @@ fn s_arr_str(r: Result<Result<&str, core::str::Utf8Error>, ()>) -> String {
     }
 }
 
-fn k_module(ctx: &mut Ctx, g: &Guarded, t: &ModuleTag) {
+pub fn k_module(ctx: &mut Ctx, g: &Guarded, t: &ModuleTag) {
     ctx.ln(
         "modinfo",
         format!(
@@ -133,7 +133,7 @@ fn k_module(ctx: &mut Ctx, g: &Guarded, t: &ModuleTag) {
     );
 }
 
-fn k_apm(ctx: &mut Ctx, t: &ApmTag) {
+pub fn k_apm(ctx: &mut Ctx, t: &ApmTag) {
     ctx.ln(
         "apm",
         format!(
@@ -151,39 +151,39 @@ fn k_apm(ctx: &mut Ctx, t: &ApmTag) {
     );
 }
 
-fn k_basic_meminfo(ctx: &mut Ctx, t: &BasicMemoryInfoTag) {
+pub fn k_basic_meminfo(ctx: &mut Ctx, t: &BasicMemoryInfoTag) {
     ctx.ln("basic_meminfo", format!("memory_lower={} memory_upper={}", t.memory_lower(), t.memory_upper()));
 }
 
-fn k_bootloader(ctx: &mut Ctx, g: &Guarded, t: &BootLoaderNameTag) {
+pub fn k_bootloader(ctx: &mut Ctx, g: &Guarded, t: &BootLoaderNameTag) {
     ctx.ln("bootloader", format!("typ={:?} size={} name={}", t.typ(), t.size(), s_str(g, guard(|| t.name()))));
 }
 
-fn k_bootdev(ctx: &mut Ctx, t: &BootdevTag) {
+pub fn k_bootdev(ctx: &mut Ctx, t: &BootdevTag) {
     ctx.ln("bootdev", format!("biosdev={} slice={} part={}", t.biosdev(), t.slice(), t.part()));
 }
 
-fn k_cmdline(ctx: &mut Ctx, g: &Guarded, t: &CommandLineTag) {
+pub fn k_cmdline(ctx: &mut Ctx, g: &Guarded, t: &CommandLineTag) {
     ctx.ln("cmdline", s_str(g, guard(|| t.cmdline())));
 }
 
-fn k_efi_ih32(ctx: &mut Ctx, t: &EFIImageHandle32Tag) {
+pub fn k_efi_ih32(ctx: &mut Ctx, t: &EFIImageHandle32Tag) {
     ctx.ln("efi_ih32", format!("pointer={}", t.image_handle()));
 }
 
-fn k_efi_ih64(ctx: &mut Ctx, t: &EFIImageHandle64Tag) {
+pub fn k_efi_ih64(ctx: &mut Ctx, t: &EFIImageHandle64Tag) {
     ctx.ln("efi_ih64", format!("pointer={}", t.image_handle()));
 }
 
-fn k_efi_sdt32(ctx: &mut Ctx, t: &EFISdt32Tag) {
+pub fn k_efi_sdt32(ctx: &mut Ctx, t: &EFISdt32Tag) {
     ctx.ln("efi_sdt32", format!("pointer={}", t.sdt_address()));
 }
 
-fn k_efi_sdt64(ctx: &mut Ctx, t: &EFISdt64Tag) {
+pub fn k_efi_sdt64(ctx: &mut Ctx, t: &EFISdt64Tag) {
     ctx.ln("efi_sdt64", format!("pointer={}", t.sdt_address()));
 }
 
-fn k_efi_mmap(ctx: &mut Ctx, g: &Guarded, t: &EFIMemoryMapTag) {
+pub fn k_efi_mmap(ctx: &mut Ctx, g: &Guarded, t: &EFIMemoryMapTag) {
     let mut it = match guard(|| t.memory_areas()) {
         Err(()) => {
             ctx.ln("efi_mmap", "areas=PANIC");
@@ -219,7 +219,7 @@ fn k_efi_mmap(ctx: &mut Ctx, g: &Guarded, t: &EFIMemoryMapTag) {
     }
 }
 
-fn k_elf(ctx: &mut Ctx, g: &Guarded, t: &ElfSectionsTag) {
+pub fn k_elf(ctx: &mut Ctx, g: &Guarded, t: &ElfSectionsTag) {
     let head =
         format!("number_of_sections={} entry_size={} shndx={}", t.number_of_sections(), t.entry_size(), t.shndx());
     let mut it = match guard(|| t.sections()) {
@@ -274,7 +274,7 @@ fn unknown_fb(e: impl core::fmt::Display) -> String {
     format!("ERR UnknownFb({})", s.rsplit(' ').next().unwrap())
 }
 
-fn k_framebuffer(ctx: &mut Ctx, g: &Guarded, t: &FramebufferTag) {
+pub fn k_framebuffer(ctx: &mut Ctx, g: &Guarded, t: &FramebufferTag) {
     let ty = match guard(|| t.buffer_type()) {
         Err(()) => "PANIC".to_string(),
         Ok(Ok(FramebufferType::Indexed { palette })) => {
@@ -302,11 +302,11 @@ fn k_framebuffer(ctx: &mut Ctx, g: &Guarded, t: &FramebufferTag) {
     );
 }
 
-fn k_load_base_addr(ctx: &mut Ctx, t: &ImageLoadPhysAddrTag) {
+pub fn k_load_base_addr(ctx: &mut Ctx, t: &ImageLoadPhysAddrTag) {
     ctx.ln("load_base_addr", format!("load_base_addr={}", t.load_base_addr()));
 }
 
-fn k_mmap(ctx: &mut Ctx, g: &Guarded, t: &MemoryMapTag) {
+pub fn k_mmap(ctx: &mut Ctx, g: &Guarded, t: &MemoryMapTag) {
     let a = guard(|| t.memory_areas());
     ctx.ln(
         "mmap",
@@ -337,13 +337,13 @@ fn k_mmap(ctx: &mut Ctx, g: &Guarded, t: &MemoryMapTag) {
     }
 }
 
-fn k_network(ctx: &mut Ctx, g: &Guarded, t: &NetworkTag) {
+pub fn k_network(ctx: &mut Ctx, g: &Guarded, t: &NetworkTag) {
     // no accessors: the extent of the unsized tail from the pointer metadata
     let n: usize = ptr_meta::metadata(t as *const NetworkTag);
     ctx.ln("network", format!("dhcpack=@{}+{}", g.off(t as *const NetworkTag) + 8, n));
 }
 
-fn k_rsdp_v1(ctx: &mut Ctx, t: &RsdpV1Tag) {
+pub fn k_rsdp_v1(ctx: &mut Ctx, t: &RsdpV1Tag) {
     ctx.ln(
         "rsdp_v1",
         format!(
@@ -357,7 +357,7 @@ fn k_rsdp_v1(ctx: &mut Ctx, t: &RsdpV1Tag) {
     );
 }
 
-fn k_rsdp_v2(ctx: &mut Ctx, t: &RsdpV2Tag) {
+pub fn k_rsdp_v2(ctx: &mut Ctx, t: &RsdpV2Tag) {
     ctx.ln(
         "rsdp_v2",
         format!(
@@ -372,7 +372,7 @@ fn k_rsdp_v2(ctx: &mut Ctx, t: &RsdpV2Tag) {
     );
 }
 
-fn k_smbios(ctx: &mut Ctx, g: &Guarded, t: &SmbiosTag) {
+pub fn k_smbios(ctx: &mut Ctx, g: &Guarded, t: &SmbiosTag) {
     let tb = t.tables();
     ctx.ln("smbios", format!("major={} minor={} tables={} {}", t.major(), t.minor(), view(g, tb), hexs(tb)));
 }
@@ -384,7 +384,7 @@ macro_rules! rd {
     };
 }
 
-fn k_vbe(ctx: &mut Ctx, t: &VBEInfoTag) {
+pub fn k_vbe(ctx: &mut Ctx, t: &VBEInfoTag) {
     ctx.ln(
         "vbe",
         format!(
